@@ -3,7 +3,9 @@
 # then keep it under /verif/seeded/<ID>/ and remove both worktrees.  Development tool.
 set -u
 ID=$1
-SRC=/tmp/wt_$ID/seeded_out
+PFX=${2:-wt}
+SUF=${3:-}
+SRC=/tmp/${PFX}_$ID/seeded_out
 VS=/tmp/vs_$ID
 git -C /repo worktree remove --force $VS >/dev/null 2>&1
 git -C /repo worktree add --detach $VS HEAD >/dev/null 2>&1 || exit 2
@@ -23,9 +25,9 @@ echo "$A" | grep -q "ok\." || ok=0
 echo "$B" | grep -q "88 passed; 0 failed" || ok=0
 echo "$C" | grep -q "FAILED" || ok=0
 if [ $ok = 1 ]; then
-  mkdir -p /verif/seeded/$ID
-  cp $SRC/patch.diff $SRC/demo.rs /verif/seeded/$ID/
-  cp $SRC/meta.json /verif/seeded/$ID/meta.agent.json
+  mkdir -p /verif/seeded/$ID$SUF
+  cp $SRC/patch.diff $SRC/demo.rs /verif/seeded/$ID$SUF/
+  cp $SRC/meta.json /verif/seeded/$ID$SUF/meta.agent.json
   echo "CONFIRMED $ID"
 else
   echo "NOT-CONFIRMED $ID"
